@@ -378,6 +378,17 @@ class ScriptedProtocol(IProtocol):
 
     def handle_telemetry(self, telemetry: Telemetry):
         p = telemetry.current_position
+        sim = getattr(CTX, "sim", None)
+        if sim is not None:
+            # the telemetry of an update carries the node's position right after that update; nothing moves a node
+            # between the update and the delivery of its telemetry (same instant), so this is the node's position now
+            try:
+                actual = tuple(float(x) for x in sim.get_node(self.provider.get_id()).position)
+            except Exception:  # noqa: BLE001
+                actual = None
+            if actual is not None and actual != (float(p[0]), float(p[1]), float(p[2])):
+                CTX.trace.append("stale %d telemetry carries %s %s %s , the node is at %s %s %s"
+                                 % ((self.provider.get_id(),) + tuple(fhex(x) for x in p) + tuple(fhex(x) for x in actual)))
         self._fire("telem", (float(p[0]), float(p[1]), float(p[2])), "telem %s %s %s" % (fhex(p[0]), fhex(p[1]), fhex(p[2])))
 
     def finish(self):
@@ -536,6 +547,7 @@ def run_sim_impl(sc, variant=None):
     """Runs the implementation on scenario `sc`; returns (trace lines, draws consumed)."""
     variant = variant or sc.get("variant") or {}
     CTX.scenario, CTX.trace, CTX.draws = sc, [], 0
+    CTX.sim = None
     orig_random = random.random
     stream = sc.get("stream")
     box = {}
@@ -613,6 +625,7 @@ def run_sim_impl(sc, variant=None):
                 # the scenario is first run once to its end from the same builder (same handler objects); what is
                 # recorded is the SECOND run, which must be what a fresh run is
                 first = b.build()
+                CTX.sim = first
                 try:
                     first.start_simulation()
                 except FailedAssertionException:
@@ -623,6 +636,7 @@ def run_sim_impl(sc, variant=None):
             if sc.get("build_twice"):
                 b.build()                   # "build the scenario again": the first simulator is simply dropped
             sim = b.build()
+            CTX.sim = sim
             if sc.get("poll_done"):
                 sim.is_simulation_done()    # a read-only query, asked before anything has run
             status = "done"
@@ -682,6 +696,7 @@ def run_sim_impl(sc, variant=None):
         signal.setitimer(signal.ITIMER_REAL, 0)
         signal.signal(signal.SIGALRM, old_handler)
         random.random = orig_random
+        CTX.sim = None
     return CTX.trace, CTX.draws
 
 
